@@ -282,6 +282,20 @@ func (u *Unit) ghostAsserts(done ast.Stmt, st *State) {
 		u.addObl(fmt.Sprintf("%s/assert#%s", b.ID(), name), clauseProps(b, c), st, t.S, "ghost assertion after statement "+fmt.Sprint(at)+": "+rest, nil)
 		st.assume(t.S)
 	}
+	// `assume @K expr`: a fact taken for granted after statement K (reported as an assumption)
+	for _, c := range b.clauses("assume") {
+		tag := fmt.Sprintf("@%s%d", where, k)
+		if !strings.HasPrefix(c.Text, tag+" ") {
+			continue
+		}
+		rest := strings.TrimSpace(c.Text[strings.Index(c.Text, " "):])
+		e := u.specEv(st, done.End())
+		if u.caseEntry != nil && u.caseClause != nil {
+			e.old = u.caseEntry
+		}
+		st.assume(e.evSpec(rest).S)
+		u.g.Assumed["assumed in "+b.ID()+" after statement "+fmt.Sprint(k)+" (not proved): "+rest] = true
+	}
 }
 
 func (u *Unit) fork(st *State, cond string) *State {
